@@ -104,6 +104,23 @@ var c04 = gen.Register(&gen.Check[caseC04]{
 				return gen.Fail(rt.name+"/value", "%s re-encodes to %x, want %x", rt.name, r.Encode(), want)
 			}
 		}
+		// decode into a receiver that already holds a point in this representation an encoding that coincides with the
+		// receiver's *raw* coordinates (a point whose affine x is the receiver's projective X): the receiver's hidden
+		// state must not influence the decoded value
+		if b.RawKnown && !m.Inf && !b.ZIsOne {
+			if even, odd, ok := ref.LiftX(b.X); ok {
+				for _, tgt := range []ref.Point{even, odd} {
+					r := e.Copy()
+					if derr := r.Decode(ref.Compress(tgt)); derr != nil {
+						return gen.Fail("Decode(Encode)/receiver-state", "valid encoding %x rejected by a receiver holding %s: %v", ref.Compress(tgt), m, derr)
+					}
+					if !bytes.Equal(r.EncodeUncompressed(), ref.Uncompressed(tgt)) || r.Equal(e) == 1 {
+						return gen.Fail("Decode(Encode)/receiver-state", "decoding %x into a receiver with raw X equal to that abscissa gives %x", ref.Compress(tgt), r.EncodeUncompressed())
+					}
+				}
+				o.Class("decode-onto-raw-x")
+			}
+		}
 		// a second representation of the same element encodes to the same bytes
 		b2, err := pt.Build(pt.Spec{Base: c.P.Base, Steps: c.Steps2})
 		if err == nil && b2.Consistent() {
